@@ -50,10 +50,19 @@ def fixes():
     return "\n".join("* `%s` %s" % tuple(l.split(" ", 1)) for l in log[::-1]) + f"\n\n{len(log)} `fix:` commits."
 
 
+def numbers():
+    out = ["| ID | cases | distinct non-trivial | wall | sub-checks |", "|----|------:|---------------------:|-----:|-----------|"]
+    for f in sorted(glob.glob(os.path.join(V, "evidence", "C??.json"))):
+        e = json.load(open(f))
+        c = e["coverage"]
+        out.append("| %s | %s | %s | %d s | %s |" % (e["property_id"], c["evaluations"], c["distinct_nontrivial"], round(e["wall_s"]), ", ".join(sorted(c["per_subcheck"]))))
+    return "\n".join(out)
+
+
 def main():
     p = os.path.join(V, "DESIGN.md")
     s = open(p).read()
-    for name, fn in (("findings", findings), ("seeded", seeded), ("mutants", mutants), ("fixes", fixes)):
+    for name, fn in (("findings", findings), ("seeded", seeded), ("mutants", mutants), ("fixes", fixes), ("numbers", numbers)):
         a, b = f"<!-- BEGIN:{name} -->", f"<!-- END:{name} -->"
         if a in s and b in s:
             s = s[:s.index(a) + len(a)] + "\n" + fn() + "\n" + s[s.index(b):]
